@@ -37,6 +37,9 @@ type Client struct {
 	lag func(gk schema.GroupKind) (behind int64, ok bool)
 	// OnCall, if set, is invoked (unlocked) before every call with the call index.
 	OnCall func(idx int, verb string)
+	// FaultFn, if set, is consulted for calls that have no planned fault: it may select an
+	// outcome from the call's verb and target (e.g. "the first get of a composed kind").
+	FaultFn func(idx int, verb string, k Key) Outcome
 }
 
 var _ client.Client = &Client{}
@@ -236,6 +239,9 @@ func (c *Client) Get(_ context.Context, key client.ObjectKey, obj client.Object,
 		k.Namespace = ""
 		ev.Key = k
 	}
+	if out == OK && c.FaultFn != nil {
+		out = c.FaultFn(idx, "get", k)
+	}
 	if out != OK {
 		ev.Injected = out.String()
 		if out == CrashBefore || out == CrashAfter {
@@ -296,6 +302,9 @@ func (c *Client) List(_ context.Context, list client.ObjectList, opts ...client.
 	w := c.w
 	w.mu.Lock()
 	ev := Event{Actor: c.Actor, Call: idx, Verb: "list", Key: Key{Group: gvk.Group, Kind: gvk.Kind, Namespace: lo.Namespace}, Version: gvk.Version}
+	if out == OK && c.FaultFn != nil {
+		out = c.FaultFn(idx, "list", ev.Key)
+	}
 	if out != OK {
 		ev.Injected = out.String()
 		if out == CrashBefore || out == CrashAfter {
@@ -459,6 +468,9 @@ func (c *Client) do(req *writeReq) (map[string]any, error) {
 	}
 	ev := Event{Actor: c.Actor, Call: idx, Verb: req.verb, Key: req.key, Version: req.gvk.Version, Sub: req.sub,
 		PatchType: req.patchType, FieldOwner: req.fieldOwner, Force: req.force, DryRun: req.dryRun, Body: req.body}
+	if out == OK && c.FaultFn != nil {
+		out = c.FaultFn(idx, req.verb, req.key)
+	}
 	if out != OK {
 		ev.Injected = out.String()
 	}
